@@ -289,10 +289,10 @@ Section Perm.
     | _, _ => False
     end.
 
-  Lemma loop_body_perm rec b0 rest' e pd :
-    (forall b b' pd0, SD b -> bsim b b' -> orel (rec b pd0) (rec b' pd0)) ->
+  Lemma loop_body_perm rec rec' b0 rest' e pd :
+    (forall b b' pd0, SD b -> bsim b b' -> orel (rec b pd0) (rec' b' pd0)) ->
     SD b0 -> Permutation (pq b0) rest' -> q_seq e < pushes b0 ->
-    orel (loop_body rec b0 e pd) (loop_body rec (with_pq b0 rest') e pd).
+    orel (loop_body rec b0 e pd) (loop_body rec' (with_pq b0 rest') e pd).
   Proof.
     intros IH S0 Pr Elt. unfold loop_body.
     set (b1 := update_minimum_reached b0 (q_cost e)).
@@ -373,16 +373,172 @@ Section Perm.
       + exact Pr.
       + cbn [with_pq pushes]. apply (proj2 HSD). eapply Permutation_in; [apply Permutation_sym; exact Pe|now left].
   Qed.
+
+  Lemma SD_initialize s : SD (bfs_initialize tape s).
+  Proof.
+    unfold bfs_initialize, bfs_put. apply put_states_SD. split; [constructor|intros e []].
+  Qed.
+
+  Lemma SD_update_upperbound b s : SD b -> SD (update_upperbound b s).
+  Proof. intros H. unfold update_upperbound. destruct (upperbound b); [destruct (Qltb _ _)|]; exact H. Qed.
+
+  (* ---------------- capstone: ANY pop satisfying the heappop contract gives the same search ---------------- *)
+  Section AbstractPop.
+    Variable pop : list qentry -> option (qentry * list qentry).
+    (* the contract: on a non-empty heap pop returns an entry with no smaller entry in the heap and removes exactly it *)
+    Hypothesis pop_some : forall l, l <> [] -> exists e rest, pop l = Some (e, rest).
+    Hypothesis pop_contract : forall l e rest, pop l = Some (e, rest) ->
+      In e l /\ minimal_in e l /\ Permutation l (e :: rest).
+
+    Fixpoint pass_loop_gen (fuel : nat) (b : bfs) (prev_depth : option nat) : out (bfs * option (dstate * Q)) :=
+      if negb (match pq b with [] => false | _ => true end && negb (min_reached b) && backjumps_left max_backjumps b)
+      then Val (match pq b with [] => set_min_reached b true | _ => b end, None)
+      else match fuel with
+           | O => NoFuel
+           | S f => match pop (pq b) with
+                    | None => Crash
+                    | Some (e, rest) => loop_body (pass_loop_gen f) (with_pq b rest) e prev_depth
+                    end
+           end.
+
+    Theorem pass_loop_gen_sim : forall fuel b b' pd,
+      SD b -> bsim b b' ->
+      orel (pass_loop tape fa max_gamma max_backjumps fuel b pd) (pass_loop_gen fuel b' pd).
+    Proof.
+      induction fuel as [|f IH]; intros b b' pd HSD (l' & P & ->).
+      - cbn [pass_loop pass_loop_gen]. cbn [with_pq pq min_reached n_backjumps].
+        assert (Enil : match pq b with [] => false | _ => true end = match l' with [] => false | _ => true end).
+        { destruct (pq b) as [|x l]; destruct l' as [|x' l'']; auto.
+          - apply Permutation_nil in P. discriminate.
+          - apply Permutation_sym, Permutation_nil in P. discriminate. }
+        unfold backjumps_left. cbn [n_backjumps with_pq]. rewrite <- Enil.
+        destruct (negb _); [|exact I]. cbn [orel].
+        destruct (pq b) as [|x l] eqn:Ep; destruct l' as [|x' l'']; try discriminate.
+        + split; [reflexivity|]. split; [exists []; split; [cbn; rewrite Ep; constructor|reflexivity]|].
+          split; [unfold seqs_distinct; cbn; rewrite Ep; constructor|cbn; rewrite Ep; intros e []].
+        + split; [reflexivity|]. split; [exists (x' :: l''); split; [rewrite Ep; exact P|reflexivity]|rewrite <- Ep in *; exact HSD].
+      - rewrite pass_loop_S. cbn [pass_loop_gen]. cbn [with_pq pq min_reached].
+        assert (Enil : match pq b with [] => false | _ => true end = match l' with [] => false | _ => true end).
+        { destruct (pq b) as [|x l]; destruct l' as [|x' l'']; auto.
+          - apply Permutation_nil in P. discriminate.
+          - apply Permutation_sym, Permutation_nil in P. discriminate. }
+        unfold backjumps_left. cbn [n_backjumps with_pq]. rewrite <- Enil.
+        destruct (negb _) eqn:Ec.
+        { cbn [orel]. destruct (pq b) as [|x l] eqn:Ep; destruct l' as [|x' l'']; try discriminate.
+          + split; [reflexivity|]. split; [exists []; split; [cbn; rewrite Ep; constructor|reflexivity]|].
+            split; [unfold seqs_distinct; cbn; rewrite Ep; constructor|cbn; rewrite Ep; intros e []].
+          + split; [reflexivity|]. split; [exists (x' :: l''); split; [rewrite Ep; exact P|reflexivity]|rewrite <- Ep in *; exact HSD]. }
+        assert (Hne : pq b <> []).
+        { intros E0. rewrite E0 in Ec. discriminate. }
+        assert (Hne' : l' <> []) by (intros ->; apply Hne; now apply Permutation_sym, Permutation_nil in P).
+        destruct (extract_min (pq b)) as [[e rest]|] eqn:Ex.
+        2:{ destruct (pq b); [congruence|simpl in Ex; destruct (extract_min_from q [] l); discriminate]. }
+        destruct (pop_some l' Hne') as (e' & rest' & Ex'). rewrite Ex'.
+        destruct (pop_contract _ _ _ Ex') as (Hin' & Me' & Pe').
+        destruct (pop_contract_determines (pq b) l' e rest e' rest' (proj1 HSD) P Ex Hin' Me' Pe') as [-> Pr].
+        destruct (extract_min_pops_minimum _ _ _ Ex) as [Pe Me].
+        change (with_pq (with_pq b l') rest') with (with_pq (with_pq b rest) rest').
+        apply loop_body_perm.
+        + intros b2 b2' pd0. apply IH.
+        + apply (SD_sub b rest [e] HSD); [exact Pe|cbn; lia].
+        + exact Pr.
+        + cbn [with_pq pushes]. apply (proj2 HSD). eapply Permutation_in; [apply Permutation_sym; exact Pe|now left].
+    Qed.
+
+    (* CutOptimization.optimization_pass, the driver loop and optimize over the abstract pop *)
+    Definition cutopt_pass_gen (fuel : nat) (co : cutopt) : out (cutopt * option (dstate * Q)) :=
+      do '(b, r) <- pass_loop_gen fuel (co_engine co) None ;;
+      match r with
+      | Some sc => Val (mkCO b (co_greedy co) true, Some sc)
+      | None =>
+          if co_returned co then Val (mkCO b (co_greedy co) true, None)
+          else match co_greedy co with
+               | Some g => Val (mkCO b (co_greedy co) true, Some (g, cost g))
+               | None => Ref
+               end
+      end.
+
+    Fixpoint driver_loop_gen (passes fuel : nat) (co : cutopt) (acc : list (Q * dstate)) : out (cutopt * list (Q * dstate)) :=
+      match passes with
+      | O => NoFuel
+      | S p =>
+          do '(co', r) <- cutopt_pass_gen fuel co ;;
+          match r with
+          | None => Val (co', acc)
+          | Some (s, c) => driver_loop_gen p fuel co' (acc ++ [(c, s)])
+          end
+      end.
+
+    Definition optimize_gen (nq fuel : nat) : out opt_result :=
+      do co <- cutopt_init tape fa max_gamma nq ;;
+      do '(co', goals) <- driver_loop_gen (S fuel) fuel co [] ;;
+      match goals with
+      | [] => Val (mkOR None goals co')
+      | g :: r => Val (mkOR (Some (snd (first_min_cost g r))) goals co')
+      end.
+
+    Definition cosim (co co' : cutopt) : Prop :=
+      SD (co_engine co) /\ bsim (co_engine co) (co_engine co') /\
+      co_greedy co = co_greedy co' /\ co_returned co = co_returned co'.
+
+    Lemma cutopt_pass_gen_sim fuel co co' :
+      cosim co co' ->
+      match cutopt_pass tape fa max_gamma max_backjumps fuel co, cutopt_pass_gen fuel co' with
+      | Val (c1, r), Val (c1', r') => r = r' /\ cosim c1 c1'
+      | Ref, Ref | Crash, Crash | NoFuel, NoFuel => True
+      | _, _ => False
+      end.
+    Proof.
+      intros (S0 & B0 & Eg & Er). unfold cutopt_pass, engine_pass, cutopt_pass_gen.
+      pose proof (pass_loop_gen_sim fuel _ _ None S0 B0) as R. unfold orel in R.
+      destruct (pass_loop _ _ _ _ _ _ _) as [[b r]| | |]; destruct (pass_loop_gen _ _ _) as [[b' r']| | |];
+        cbn [obind]; try contradiction; auto.
+      destruct R as (-> & Bs & S1). rewrite <- Eg, <- Er.
+      destruct r' as [[s c]|].
+      - split; [reflexivity|]. (unfold cosim; cbn [co_engine co_greedy co_returned]; split; [exact S1|split; [exact Bs|split; reflexivity]]).
+      - destruct (co_returned co).
+        + split; [reflexivity|]. (unfold cosim; cbn [co_engine co_greedy co_returned]; split; [exact S1|split; [exact Bs|split; reflexivity]]).
+        + destruct (co_greedy co); [|exact I]. split; [reflexivity|]. (unfold cosim; cbn [co_engine co_greedy co_returned]; split; [exact S1|split; [exact Bs|split; reflexivity]]).
+    Qed.
+
+    Lemma driver_loop_gen_sim : forall passes fuel co co' acc,
+      cosim co co' ->
+      match driver_loop tape fa max_gamma max_backjumps passes fuel co acc, driver_loop_gen passes fuel co' acc with
+      | Val (c1, g), Val (c1', g') => g = g' /\ cosim c1 c1'
+      | Ref, Ref | Crash, Crash | NoFuel, NoFuel => True
+      | _, _ => False
+      end.
+    Proof.
+      induction passes as [|p IH]; intros fuel co co' acc C; cbn [driver_loop driver_loop_gen]; [exact I|].
+      pose proof (cutopt_pass_gen_sim fuel co co' C) as R.
+      destruct (cutopt_pass _ _ _ _ _ _) as [[c1 r]| | |]; destruct (cutopt_pass_gen _ _) as [[c1' r']| | |];
+        cbn [obind]; try contradiction; auto.
+      destruct R as [-> C1]. destruct r' as [[s c]|]; [apply IH; exact C1|]. split; [reflexivity|exact C1].
+    Qed.
+
+    (* the capstone: same best state, same list of goals, engines equal up to the order of the queue *)
+    Theorem optimize_gen_sim nq fuel :
+      match optimize tape fa max_gamma max_backjumps nq fuel, optimize_gen nq fuel with
+      | Val r, Val r' => or_best r = or_best r' /\ or_goals r = or_goals r' /\ cosim (or_cutopt r) (or_cutopt r')
+      | Ref, Ref | Crash, Crash | NoFuel, NoFuel => True
+      | _, _ => False
+      end.
+    Proof.
+      unfold optimize, optimize_gen.
+      destruct (cutopt_init tape fa max_gamma nq) as [co| | |] eqn:Ei; cbn [obind]; auto.
+      assert (C : cosim co co).
+      { split; [|split; [apply bsim_refl|split; reflexivity]].
+        unfold cutopt_init in Ei. destruct (greedy_cut_optimization nq fa) as [gr| | |]; cbn [obind] in Ei; try discriminate.
+        inversion Ei; subst co. cbn [co_engine]. destruct gr; [apply SD_update_upperbound|]; apply SD_initialize. }
+      pose proof (driver_loop_gen_sim (S fuel) fuel co co [] C) as R.
+      destruct (driver_loop _ _ _ _ _ _ _ _) as [[c1 g]| | |]; destruct (driver_loop_gen _ _ _ _) as [[c1' g']| | |];
+        cbn [obind]; try contradiction; auto.
+      destruct R as [-> C1]. destruct g' as [|x g']; cbn; auto.
+    Qed.
+  End AbstractPop.
 End Perm.
 
 (* the invariant "pairwise different seq numbers" holds from the start and is kept by every pass *)
-Lemma SD_initialize tape s : SD (bfs_initialize tape s).
-Proof.
-  unfold bfs_initialize, bfs_put. apply put_states_SD. split; [constructor|intros e []].
-Qed.
-
-Lemma SD_update_upperbound b s : SD b -> SD (update_upperbound b s).
-Proof. intros H. unfold update_upperbound. destruct (upperbound b); [destruct (Qltb _ _)|]; exact H. Qed.
 
 Lemma pass_loop_SD tape fa mg mb fuel b pd b1 r :
   SD b -> pass_loop tape fa mg mb fuel b pd = Val (b1, r) -> SD b1.
